@@ -140,7 +140,7 @@ impl Check for C12 {
             6..=7 => Mode::PriorLifetimes,
             _ => Mode::Threads,
         };
-        Scn { instances, mode, sched: Tape::random(rng, 400), fuel: 4_000_000, process_restart: None }
+        Scn { instances, mode, sched: Tape::random(rng, 400), fuel: 500_000, process_restart: None }
     }
 
     fn shrink(&self, scn: &Scn) -> Vec<Scn> {
@@ -416,7 +416,7 @@ pub fn worker(seed: u64, n: usize, start: usize) {
     for i in start..start + n {
         let mut r = Rng::new(crate::rng::derive(seed, sid, i as u64));
         let inst = gen_instance(&mut r, "v");
-        let o = run_solo(&spec_of(&inst, 4_000_000));
+        let o = run_solo(&spec_of(&inst, 500_000));
         println!("{} {:016x}", i, hash_str(&full_trace(&o)));
     }
 }
